@@ -51,6 +51,20 @@ def gen(tier, rng, own=()):
             for _ in range(10 if tier == "quick" else 60):
                 m = bytearray(st); m[rng.randrange(len(st))] = rng.randrange(256)
                 runs(bytes(m), mode, {"family": "byte-substitution", "parent": name}, cpus)
+    # (a2) zlib streams whose payload's Adler-32 halves sit on their boundary values (A or B in {0, 65520}): intact, and with every bit of the
+    #      trailer flipped (a decoder that converts its internal A-1 form wrongly accepts exactly one of those)
+    from props import c11
+    for name, d in c11.adler_edge_inputs(rng)[:6]:
+        if len(d) > 3000: continue
+        d = bytes(d); c = zlib.compressobj(6, zlib.DEFLATED, -15); raw = c.compress(d) + c.flush()
+        for mode in (3, 5):
+            st = inflfam.wrap_stream(mode, raw, d)
+            runs(st, mode, {"family": "adler-boundary-intact", "parent": name}, [inflfam.KERNEL_CPUS[k % 3]])
+            for byte in range(len(st) - 4, len(st)):
+                for bit in range(8):
+                    m = bytearray(st); m[byte] ^= 1 << bit
+                    runs(bytes(m), mode, {"family": "adler-boundary-trailer-bitflip", "parent": name}, [inflfam.KERNEL_CPUS[(byte + bit) % 3]],
+                         sch=[("inflate_stateless", [[len(st), 1 << 16, 0, 0]], 1 << 16, 1 << 16), ("inflate", [], [3, 1 << 16][bit % 2], [7, 1 << 16][(bit // 2) % 2])])
     # (b2) every output-buffer size, one-shot: a valid stream with too little room must be reported as overflow (or decoded), never as invalid
     tiny = []
     for toks in ([("lit", 97), ("match", 3, 1)], [("lit", 97), ("lit", 98), ("lit", 99), ("lit", 100), ("match", 3, 4)], [("lit", 97), ("match", 3, 1), ("lit", 98), ("match", 4, 2), ("lit", 99), ("lit", 99), ("match", 3, 1)],
